@@ -40,7 +40,7 @@ func (s *State) sliceCells(v SliceV) []Value {
 	if n == 0 {
 		return nil
 	}
-	return s.obj(v.Obj).Cells[v.Off : v.Off+n]
+	return s.loadLeaves(PtrV{Obj: v.Obj, Off: v.Off}, n)
 }
 
 func (s *State) newByteSlice(cells []Value, note string) SliceV {
@@ -137,7 +137,6 @@ func (s *State) builtin(name string, args []Value, call *ssa.Call) (Value, bool)
 		}
 	case "copy":
 		dst := args[0].(SliceV)
-		var srcCells []Value
 		elemN := 1
 		if call != nil {
 			if st, ok := call.Call.Args[0].Type().Underlying().(*types.Slice); ok {
@@ -146,26 +145,52 @@ func (s *State) builtin(name string, args []Value, call *ssa.Call) (Value, bool)
 		} else if dst.Obj != 0 {
 			elemN = elemLeaves(dst, s)
 		}
-		dl := s.sliceLen(dst)
-		var sl int
+		var srcLen *Expr
 		switch src := args[1].(type) {
 		case StrV:
-			srcCells = s.bytesOf(src)
-			sl = len(src)
+			srcLen = c64(len(src))
 		case SliceV:
-			sl = s.sliceLen(src)
-			if sl > 0 {
-				srcCells = s.obj(src.Obj).Cells[src.Off : src.Off+sl*elemN]
+			srcLen = src.Len
+		}
+		// n = min(len(dst), len(src)) without enumerating symbolic lengths
+		var n int
+		switch {
+		case dst.Len.IsConst() && srcLen.IsConst():
+			n = int(dst.Len.K)
+			if int(srcLen.K) < n {
+				n = int(srcLen.K)
+			}
+		case srcLen.IsConst():
+			if s.branch(Sge(dst.Len, srcLen)) {
+				n = int(srcLen.K)
+			} else {
+				n = int(s.concretize(dst.Len, "copy dst len"))
+			}
+		case dst.Len.IsConst():
+			if s.branch(Sge(srcLen, dst.Len)) {
+				n = int(dst.Len.K)
+			} else {
+				n = int(s.concretize(srcLen, "copy src len"))
+			}
+		default:
+			if s.branch(Sge(dst.Len, srcLen)) {
+				n = int(s.concretize(srcLen, "copy src len"))
+			} else {
+				n = int(s.concretize(dst.Len, "copy dst len"))
 			}
 		}
-		n := dl
-		if sl < n {
-			n = sl
-		}
 		if n > 0 {
-			tmp := make([]Value, n*elemN)
-			copy(tmp, srcCells[:n*elemN])
+			var tmp []Value
+			switch src := args[1].(type) {
+			case StrV:
+				tmp = s.bytesOf(src)[:n]
+			case SliceV:
+				tmp = append([]Value(nil), s.loadLeaves(PtrV{Obj: src.Obj, Off: src.Off}, n*elemN)...)
+			}
 			o := s.wobj(dst.Obj)
+			if o.Virtual && dst.Off+n*elemN > len(o.Cells) {
+				o = s.materialize(dst.Obj, dst.Off+n*elemN)
+			}
 			copy(o.Cells[dst.Off:dst.Off+n*elemN], tmp)
 		}
 		return c64(n), true
